@@ -324,3 +324,79 @@ func W7PositionsInDocs(maxLen int, sink Sink) {
 		}
 	})
 }
+
+// W7Adjacent: every non-control byte value immediately BEFORE and AFTER each special element of a
+// string (closing quote, short escape, escaped backslash, unicode escape, raw control bytes), at
+// every alignment 0..16, alone and followed by more data. Word-at-a-time scanners locate special
+// bytes with carry/borrow tricks whose false positives depend on the VALUE of the neighbouring
+// byte (seeded change C06r5-m2: '#' before the quote and ']' before a backslash).
+func W7Adjacent(aligns []int, tails []string, sink Sink) {
+	specials := []string{`"`, `\n`, `\\`, `\u0041`, "\x1f", "\x00"}
+	fill := "abcdefghijklmnopqrstuvwxyz"
+	c := &h.Case{Family: "W7a"}
+	c.DescFn = func(c *h.Case) string {
+		side := "before"
+		if c.P[3]&1 == 1 {
+			side = "after"
+		}
+		return fmt.Sprintf("byte 0x%02x %s %q at alignment %d, tail #%d", c.P[0], side, specials[c.P[1]], c.P[2], c.P[3]>>1)
+	}
+	buf := make([]byte, 0, 128)
+	for b := 0x20; b <= 0xff; b++ {
+		if b == '"' || b == 0x5c {
+			continue
+		}
+		for si, sp := range specials {
+			for _, al := range aligns {
+				for side := 0; side < 2; side++ {
+					for ti, tail := range tails {
+						buf = append(buf[:0], '"')
+						buf = append(buf, fill[:al]...)
+						if side == 0 {
+							buf = append(buf, byte(b))
+						}
+						if si > 0 {
+							buf = append(buf, sp...)
+						}
+						if side == 1 {
+							if si == 0 {
+								continue // nothing comes after the closing quote inside the token
+							}
+							buf = append(buf, byte(b))
+						}
+						buf = append(buf, '"')
+						buf = append(buf, tail...)
+						c.Input = buf
+						c.Desc = ""
+						c.P = [4]int{b, si, al, ti<<1 | side}
+						sink(c)
+					}
+				}
+			}
+		}
+	}
+}
+
+var W7AdjAligns = []int{0, 1, 2, 3, 4, 5, 6, 7, 8, 9, 10, 11, 12, 13, 14, 15, 16}
+var W7AdjTails = []string{"", `,"trailing-data-0123456789"]`}
+
+// W7AdjacentInDocs: the same strings as array elements, member values and keys.
+func W7AdjacentInDocs(sink Sink) {
+	wrap := [][2]string{{"[", `,"trailing-data-0123456789"]`}, {`{"k":`, `,"trailing-data":"0123456789"}`}, {"{", `:1,"trailing-data":"0123456789"}`}, {`[0,`, "]"}}
+	c := &h.Case{Family: "W7ad"}
+	c.DescFn = func(c *h.Case) string {
+		return fmt.Sprintf("adjacent-byte string (byte 0x%02x, special #%d, alignment %d, side %d) wrapped as %q..%q", c.P[0], c.P[1], c.P[2], c.P[3]>>4, wrap[c.P[3]&15][0], wrap[c.P[3]&15][1])
+	}
+	buf := make([]byte, 0, 256)
+	W7Adjacent([]int{0, 3, 6, 7, 8, 15}, []string{""}, func(cs *h.Case) {
+		for wi, w := range wrap {
+			buf = append(buf[:0], w[0]...)
+			buf = append(buf, cs.Input...)
+			buf = append(buf, w[1]...)
+			c.Input = buf
+			c.Desc = ""
+			c.P = [4]int{cs.P[0], cs.P[1], cs.P[2], (cs.P[3]&1)<<4 | wi}
+			sink(c)
+		}
+	})
+}
